@@ -73,6 +73,18 @@ VARIANTS = [
     ("enum-ba-T", {"type": "string", "enum": ["b", "a"], "title": "Other"}, False, ["a"]),
     ("enum-abc", {"type": "string", "enum": ["a", "b", "c"]}, False, ["c", "a"]),
     ("enum-xy", {"type": "string", "enum": ["x", "y"]}, False, ["x"]),
+    # member names (dict keys) are derived: upper-cased, punctuation folded, VALUE_<index> for non-alphabetic heads. These variants share
+    # member NAMES with different VALUES (or the reverse): compatibility must be decided on (name, value) items
+    ("enum-lower", {"type": "string", "enum": ["active", "inactive"]}, False, ["active"]),
+    ("enum-UPPER", {"type": "string", "enum": ["ACTIVE", "INACTIVE", "PENDING"]}, False, ["PENDING", "ACTIVE"]),
+    ("enum-Mixed", {"type": "string", "enum": ["Active", "inactive"]}, False, ["inactive"]),
+    ("enum-dash", {"type": "string", "enum": ["in-active", "active"]}, False, ["in-active"]),
+    ("enum-space", {"type": "string", "enum": ["in active", "active", "x"]}, False, ["in active"]),
+    ("enum-dig1", {"type": "string", "enum": ["1a", "2b"]}, False, ["1a"]),
+    ("enum-dig2", {"type": "string", "enum": ["3c", "4d", "5e"]}, False, ["5e"]),
+    ("enum-dig3", {"type": "string", "enum": ["2b", "1a"]}, False, ["1a"]),
+    ("list-enum-lower", {"type": "array", "items": {"type": "string", "enum": ["active", "inactive"]}}, False, []),
+    ("list-enum-UPPER", {"type": "array", "items": {"type": "string", "enum": ["ACTIVE", "INACTIVE", "PENDING"]}}, False, []),
     ("enum-12", {"type": "integer", "enum": [1, 2]}, False, [1]),
     ("enum-123", {"type": "integer", "enum": [3, 2, 1]}, False, [3, 2]),
     ("enum-refE1", {"allOf": [REF("E1")]}, False, ["a"]),
@@ -370,7 +382,16 @@ def collect_doc(rng):
         parents.append("Q")
     members = []
     for _ in range(rng.randint(1, 4)):
-        members.append(REF(rng.choice(parents)) if rng.random() < 0.6 else rand_object(rng, (1, 2)))
+        r = rng.random()
+        if r < 0.55:
+            members.append(REF(rng.choice(parents)))
+        elif r < 0.8:
+            members.append(rand_object(rng, (1, 2)))
+        else:       # a member that only constrains: `required` (naming own / inline / $ref'd properties), no `properties`
+            m = {"required": rng.sample(POOL_NAMES, rng.randint(1, 2))}
+            if rng.random() < 0.5:
+                m["type"] = "object"
+            members.append(m)
     child = {"allOf": members}
     if rng.random() < 0.5:
         own = rand_object(rng, (1, 2))
@@ -460,7 +481,9 @@ Definition collect_obs_eqb (a : option (list (str * mprop))) (b : option (list (
 # means for the supported subset) is computed from decls, never from the parser.
 SCALARS = ["str", "int", "number", "bool", "date", "datetime", "uuid", "any"]
 ANN = {"str": "str", "int": "int", "number": "float", "bool": "bool", "date": "datetime.date", "datetime": "datetime.datetime", "uuid": "UUID", "any": "Any"}
-ENUMS_S = [["a", "b"], ["a", "b", "c"], ["x", "y"], ["b", "a"]]
+ENUMS_S = [["a", "b"], ["a", "b", "c"], ["x", "y"], ["b", "a"],
+           # same member names, different values (case / punctuation / VALUE_<index>): never compatible
+           ["active", "inactive"], ["ACTIVE", "INACTIVE", "PENDING"], ["in-active", "active"], ["in active", "active", "x"], ["1a", "2b"], ["3c", "4d", "5e"]]
 ENUMS_I = [[1, 2], [1, 2, 3], [7]]
 LEAF_MODELS = {"A": {"type": "object", "properties": {"x": {"type": "string"}}}, "B": {"type": "object", "properties": {"y": {"type": "integer"}}}}
 
@@ -575,8 +598,10 @@ def ann_of(d):
     return None
 
 
-def rand_members(rng, names, focus):
-    """an object schema description: {'props': {name: decl}, 'required': [...]}"""
+def rand_members(rng, names, focus, allow_bare=False):
+    """an object schema description: {'props': {name: decl}, 'required': [...]}; allow_bare: sometimes a member that carries ONLY `required`"""
+    if allow_bare and rng.random() < 0.2:
+        return {"props": {}, "required": rng.sample(names, rng.randint(1, min(2, len(names))))}
     ns = rng.sample(names, rng.randint(1, min(3, len(names))))
     props = {n: rand_decl(rng, focus=focus.get(n)) for n in ns}
     req = [n for n in names if rng.random() < (0.4 if n in ns else 0.08)]
@@ -601,7 +626,7 @@ def rand_doc_spec(rng, tier):
     for i in range(rng.randint(1, 3 if tier == "quick" else 4)):
         ms = []
         for _ in range(rng.randint(1, 3 if tier == "quick" else 5)):
-            ms.append(("ref", rng.choice(avail)) if rng.random() < 0.6 else ("inline", rand_members(rng, names, focus)))
+            ms.append(("ref", rng.choice(avail)) if rng.random() < 0.6 else ("inline", rand_members(rng, names, focus, allow_bare=True)))
         own = rand_members(rng, names, focus) if rng.random() < 0.3 else None
         if len(ms) == 1 and ms[0][0] == "ref" and (own is None or rng.random() < 0.7):
             ms.append(("inline", rand_members(rng, names, focus)))     # a lone $ref without own properties is an alias by design
@@ -613,9 +638,10 @@ def rand_doc_spec(rng, tier):
     return spec
 
 
-def exhaustive_pair_specs():
-    """every ordered pair of declaration shapes for one shared property, as ref/ref and inline/inline members, optional/required mixes"""
-    shapes = [{"k": k} for k in SCALARS] + [{"k": "enum_s", "vals": v} for v in ENUMS_S[:3]] + [{"k": "enum_i", "vals": v} for v in ENUMS_I[:2]] + \
+def exhaustive_pair_specs(both_modes=True):
+    """every ordered pair of declaration shapes for one shared property, as ref/ref and inline/inline members (quick tier: the mode
+    alternates over the pairs), optional/required mixes"""
+    shapes = [{"k": k} for k in SCALARS] + [{"k": "enum_s", "vals": v} for v in ENUMS_S[:3] + ENUMS_S[4:6] + ENUMS_S[8:10]] + [{"k": "enum_i", "vals": v} for v in ENUMS_I[:2]] + \
              [{"k": "list", "item": {"k": "int"}}, {"k": "list", "item": {"k": "number"}}, {"k": "list", "item": {"k": "ref", "to": "A"}},
               {"k": "ref", "to": "A"}, {"k": "ref", "to": "B"}]
     out = []
@@ -623,7 +649,7 @@ def exhaustive_pair_specs():
         for j, s2 in enumerate(shapes):
             if i > j:
                 continue      # the reversed document covers the other order
-            for mode in ("ref", "inline"):
+            for mode in (("ref", "inline") if both_modes else (("ref", "inline")[(i * 7 + j) % 2],)):
                 r1, r2 = [["pa"], []][(i + j) % 2], [["pa"], []][(i * 3 + j) % 2]
                 o1, o2 = {"props": {"pa": s1, "pb": {"k": "str"}}, "required": r1}, {"props": {"pa": s2, "pc": {"k": "int"}}, "required": r2}
                 if mode == "ref":
@@ -639,6 +665,18 @@ def fixed_specs():
     """one deterministic witness per known finding (so each reproduces on every run) + a late-parent chain"""
     P = lambda **props: {"props": props, "required": []}
     return [
+        # own properties + an inline member that carries only `required`; inline properties + a required-only sibling
+        {"leaves": {}, "composed": {"C0": {"members": [("inline", {"props": {}, "required": ["pa"]})], "own": {"props": {"pa": {"k": "int"}, "pb": {"k": "str"}}, "required": []}},
+                                    "C1": {"members": [("inline", {"props": {"pc": {"k": "str"}, "pq": {"k": "str"}}, "required": []}), ("inline", {"props": {}, "required": ["pc"]})], "own": None}},
+         "order": ["C0", "C1"]},
+        {"leaves": {"P0": P(pa={"k": "str"})},
+         "composed": {"C0": {"members": [("ref", "P0"), ("inline", {"props": {"pb": {"k": "int"}}, "required": []}), ("inline", {"props": {}, "required": ["pb"]})], "own": None}}, "order": ["P0", "C0"]},
+        # enums whose member names coincide while the values differ: a diagnostic, never a silent pick
+        {"leaves": {"P0": P(pa={"k": "enum_s", "vals": ["active", "inactive"]}), "P1": P(pa={"k": "enum_s", "vals": ["ACTIVE", "INACTIVE", "PENDING"]})},
+         "composed": {"C0": {"members": [("ref", "P0"), ("ref", "P1")], "own": None}}, "order": ["P0", "P1", "C0"]},
+        {"leaves": {"P0": P(pa={"k": "enum_s", "vals": ["1a", "2b"]}), "P1": P(pa={"k": "enum_s", "vals": ["3c", "4d", "5e"]}), "P2": P(pa={"k": "enum_s", "vals": ["in-active", "active"]}),
+                    "P3": P(pa={"k": "enum_s", "vals": ["in active", "active", "x"]})},
+         "composed": {"C0": {"members": [("ref", "P0"), ("ref", "P1")], "own": None}, "C1": {"members": [("ref", "P3"), ("ref", "P2")], "own": None}}, "order": ["P0", "P1", "P2", "P3", "C0", "C1"]},
         {"leaves": {"P0": P(pa={"k": "int"}), "P1": P(pa={"k": "number"}), "P2": P(pa={"k": "enum_i", "vals": [1, 2]})},
          "composed": {"C0": {"members": [("ref", "P0"), ("ref", "P1"), ("ref", "P2")], "own": None}}, "order": ["P0", "P1", "P2", "C0"]},
         {"leaves": {"P0": P(pa={"k": "str"})}, "composed": {"C0": {"members": [("ref", "P0"), ("inline", {"props": {}, "required": ["pa"]})], "own": None}}, "order": ["C0", "P0"]},
@@ -658,7 +696,10 @@ def fixed_specs():
 
 
 def obj_schema(o):
-    s = {"type": "object", "properties": {n: schema_of(d) for n, d in o["props"].items()}}
+    if not o["props"]:      # a member that only constrains
+        s = {"type": "object"} if len(o["required"]) % 2 == 0 else {}
+    else:
+        s = {"type": "object", "properties": {n: schema_of(d) for n, d in o["props"].items()}}
     if o["required"]:
         s["required"] = list(o["required"])
     return s
@@ -677,7 +718,8 @@ def doc_of(spec, reverse=False):
             s = {"allOf": ms}
             if c["own"] is not None:
                 o = obj_schema(c["own"])
-                s["properties"] = o["properties"]
+                if "properties" in o:
+                    s["properties"] = o["properties"]
                 if "required" in o:
                     s["required"] = o["required"]
             comps[name] = s
@@ -780,13 +822,13 @@ for job in inp["jobs"]:
             except Exception as e:
                 miss[n] = type(e).__name__
         r["missing"] = miss
-        rej = {}
-        for n, inst in job.get("reject", {}).items():
+        rej = []
+        for q in job.get("reject", []):
             try:
-                cls.from_dict(inst)
-                rej[n] = "accepted"
+                cls.from_dict(q["inst"])
+                rej.append("accepted")
             except Exception as e:
-                rej[n] = type(e).__name__
+                rej.append(type(e).__name__)
         r["reject"] = rej
     except Exception as e:
         r["fatal"] = traceback.format_exc()[-1500:]
@@ -818,26 +860,29 @@ def stage_c_worker(spec):
         jobs = []
         for cname in spec["composed"]:
             f = flatten(spec, cname, memo)
-            inst_full, inst_min, skip, bad = {}, {}, False, {}
+            inst_full, inst_min, roundtrip, rejects = {}, {}, True, []
             for n, ds in f["decls"].items():
                 cur = fold_narrow([d for d, _ in ds])
                 if cur[0] != "ok":
-                    skip = True
-                    break
+                    roundtrip = False          # no instance is known to be valid against all members; the conjunction checks below still apply
+                    cur = ("ok", ds[0][0])
                 inst_full[n] = sample(cur[1], len(n))
-                if cur[1]["k"] in ("enum_s", "enum_i"):      # a value only the larger enum (or the base type) admits must be refused
-                    wider = [v for d, _ in ds if d["k"] == cur[1]["k"] for v in d["vals"] if v not in cur[1]["vals"]]
-                    if len(ds) > 1:
-                        bad[n] = wider[0] if wider else ("zzz" if cur[1]["k"] == "enum_s" else 99)
                 if n in f["required_spec"]:
                     inst_min[n] = sample(cur[1], 1)
-            if skip:
-                continue
+            # allOf is a conjunction: whatever type was chosen, a value that SOME enum member refuses must be refused by the composed class
+            for n, ds in f["decls"].items():
+                enums = [d for d, _ in ds if d["k"] in ("enum_s", "enum_i")]
+                if len(ds) > 1 and enums:
+                    allv = [v for d in enums for v in d["vals"]]
+                    outside = [v for v in dict.fromkeys(allv) if not all(v in d["vals"] for d in enums)]
+                    outside.append("zzz" if enums[0]["k"] == "enum_s" else 99)
+                    for v in outside[:5]:
+                        rejects.append({"attr": n, "value": v, "inst": {**inst_full, n: v}})
             missing = {n: {k: v for k, v in inst_full.items() if k != n} for n in f["required_spec"]}
             for i in (0, 1):
                 if cname in tabs[i]:
-                    jobs.append({"id": f"{cname}/{i}", "pkg": f"pk{i}", "cls": cname, "instances": [inst_full, inst_min], "missing": missing,
-                                 "reject": {n: {**inst_full, n: v} for n, v in bad.items()}})
+                    jobs.append({"id": f"{cname}/{i}", "pkg": f"pk{i}", "cls": cname, "instances": [inst_full, inst_min] if roundtrip else [], "missing": missing if roundtrip else {},
+                                 "reject": rejects})
         if jobs:
             script = root / "runner.py"
             script.write_text(SUBPROC)
@@ -1046,10 +1091,10 @@ def judge_doc(run, obs, guard_queries):
                 if not out.get("ok") or out.get("extra"):
                     run.violation("oracle", {"replay_input": case, "note": "instance valid against all members does not round-trip through the composed class (or lands in additional_properties)",
                                              "class": cname, "order": i, "instance": inst, "result": out})
-            for n, verdict in r.get("reject", {}).items():
+            for q, verdict in zip(job.get("reject", []), r.get("reject", [])):
                 if verdict == "accepted":
-                    run.violation("oracle", {"replay_input": case, "note": "a value outside the narrowest (smaller) enum is accepted by the composed class", "class": cname, "attr": n,
-                                             "instance": job["reject"][n]})
+                    run.violation("oracle", {"replay_input": case, "note": "a value that a member's enum refuses is accepted by the composed class (not the narrowest / not a conjunction)",
+                                             "class": cname, "attr": q["attr"], "value": q["value"], "order": i, "annotation": (a0, a1)[i].get(q["attr"], ("?",))[0]})
             for n, verdict in r["missing"].items():
                 opt = split_ann((a0, a1)[i].get(n, ("Union[Unset, ?]", True))[0])[0]
                 if verdict == "accepted" and not opt:
@@ -1081,7 +1126,7 @@ def run(run, tier, replay=None):
     ccases = [collect_doc(rng) for _ in range(400 if tier == "quick" else 6000)] if rp is None else [(r["components"], r["child"]) for r in rp if r["type"] == "collect"]
     # ---------------- stage C end to end: documents are generated / executed in worker processes while stage B runs
     if rp is None:
-        specs = fixed_specs() + (exhaustive_pair_specs()[::2] if tier == "quick" else exhaustive_pair_specs())
+        specs = fixed_specs() + exhaustive_pair_specs(both_modes=tier != "quick")
         specs += [rand_doc_spec(rng, tier) for _ in range(100 if tier == "quick" else 1500)]
         run.exhaustive = True
     else:
